@@ -375,6 +375,11 @@ def schema_trees(tier, rng=None):
     # first (forward) reference is neither the first child of its parent nor held by the most recently reserved node
     add("fwd_after_sibling", rec("a.T", [("a", arr(prim("int"))), ("b", enum("a.E", ["S", "T"])), ("c", ref("a.E"))]))
     add("fwd_in_union_second", rec("a.T", [("x", rec("a.In", [("m", mp(prim("string")))])), ("u", un(prim("null"), enum("a.E", ["S"]))), ("e", ref("a.E"))]))
+    # cycles that are NOT unconditional (they pass through an array / a map / a union), over two records, and a later sibling that refers to an earlier one
+    add("cond_cycle_two_records", rec("a.Node", [("children", arr(rec("a.Edge", [("target", ref("a.Node")), ("w", prim("int"))])))]))
+    add("cond_cycle_map", rec("a.P", [("m", mp(rec("a.Q", [("p", ref("a.P")), ("q", un(prim("null"), ref("a.Q")))])))]))
+    add("union_sibling_ref", un(rec("a.A1", [("x", prim("int"))]), rec("a.B1", [("a", ref("a.A1")), ("b", un(prim("null"), ref("a.B1")))])))
+    add("fixed_size_zero", rec("a.HZ", [("z", fixed("a.Z0", 0)), ("y", arr(ref("a.Z0")))]))
     add("fwd_in_map", rec("a.T", [("x", arr(prim("long"))), ("m", mp(enum("a.E", ["S"]))), ("n", mp(un(prim("null"), fixed("a.F", 2)))), ("e", ref("a.E")), ("f", ref("a.F"))]))
     add("fwd_two_types", rec("T", [("a", rec("A", [("x", mp(prim("string")))])), ("b", arr(fixed("F", 3))), ("c", ref("F")), ("d", un(prim("null"), enum("E", ["Q"]))),
                                    ("e", arr(ref("E")))]))
